@@ -6,6 +6,7 @@ mechanism flags regenerated from the source (`Generated/CacheMech.lean`).
 -/
 import Midgard.Proofs.CacheMachine
 import Midgard.Proofs.ObjCache
+import Midgard.Proofs.PosCacheProofs
 import Midgard.Generated.CacheMech
 
 namespace Midgard.Props.C08
@@ -269,6 +270,76 @@ example : (run good {} [.create [1, 2], .create [3, 4], .setOther 0 (some 1), .s
 end Midgard.Props.C08.Obj
 
 
+/-! ## PosVel / Kepler-element objects: the `to_system` cache
+
+The store of `Model/PosCache.lean` (property C07, validated against the real `PosVel(...).kepler / .trs` objects by
+`./check C07`): objects with a system (`trs` | `kepler`), memory blocks, row views (`_share_memory_with` and the root
+linking of `_link_shared_memory`), `_cache[<other system>]`, `convert_to` registering the source as a dependent of the
+array it hands out, `__setitem__` with `_clear_dependent_caches`.  Its invariant `WF` holds in every history
+(`wf_run`); here the C08 statement is drawn from it: what any history shows is what recomputation from the current
+contents shows. -/
+
+namespace Midgard.Props.C08.PosVel
+open Midgard.Geo.PosCache
+
+variable {A : Type} [Arr A]
+
+/-- what a history shows: the values of the object every operation hands out (`None` for a write) -/
+def observed (st : Store A) : List (Op A) → List (Option A)
+  | [] => []
+  | op :: ops => (step st op).2.map (contents (step st op).1) :: observed (step st op).1 ops
+
+/-- the same read off the *current contents* only, without looking at any `_cache` -/
+def recomputed (st : Store A) : List (Op A) → List (Option A)
+  | [] => []
+  | op :: ops =>
+    (match op with
+      | .new _ a => some a
+      | .toSys o s => if o < st.n then some (if s = (st.obj o).sys then contents st o else Arr.conv s (contents st o)) else none
+      | .view o k => if o < st.n then some (Arr.get k (contents st o)) else none
+      | .take o k => if o < st.n then some (Arr.get k (contents st o)) else none
+      | .set _ _ _ => none) :: recomputed (step st op).1 ops
+
+theorem posvel_caching_invisible_from {st : Store A} (wf : WF st) (ops : List (Op A)) :
+    observed st ops = recomputed st ops := by
+  induction ops generalizing st with
+  | nil => rfl
+  | cons op ops ih =>
+    simp only [observed, recomputed]
+    rw [ih (wf_step wf op)]
+    congr 1
+    cases op with
+    | new s a => simp [step, alloc_contents_new]
+    | toSys o s =>
+      by_cases ho : o < st.n
+      · simp only [step, ho, if_true, Option.map_some]
+        rw [(toSystem_spec wf ho s).1]
+      · simp [step, ho]
+    | view o k =>
+      by_cases ho : o < st.n
+      · simp only [step, ho, if_true, Option.map_some]
+        rw [view_contents_new]
+      · simp [step, ho]
+    | take o k =>
+      by_cases ho : o < st.n
+      · simp [step, ho, take, alloc_contents_new]
+      · simp [step, ho]
+    | set o k v =>
+      by_cases ho : o < st.n <;> simp [step, ho]
+
+theorem posvel_caching_invisible (a : A) (ops : List (Op A)) : observed (empty a) ops = recomputed (empty a) ops :=
+  posvel_caching_invisible_from (wf_empty a) ops
+
+
+/-- non-vacuity (symbolic values): `orbit = PosVel(L0, 'trs'); k = orbit.kepler; r = orbit[a]; r[b] = L1` (a write through
+a row view); `orbit.kepler` is then `trs2kepler` of the contents after the write, not the cached `k` -/
+example : (observed (empty (Term.lit 9)) [Op.new .trs (.lit 0), .toSys 0 .kepler, .view 0 "a", .set 2 "b" (.lit 1), .toSys 0 .kepler]).map
+      (Option.map Term.render)
+    = [some "L0", some "C(k,L0)", some "G(a,L0)", none, some "C(k,P(a,P(b,L1,G(a,L0)),L0))"] := by decide +kernel
+
+end Midgard.Props.C08.PosVel
+
+
 #print axioms Midgard.Props.C08.refines_from
 #print axioms Midgard.Props.C08.refines
 #print axioms Midgard.Props.C08.ref_call_current
@@ -297,3 +368,5 @@ end Midgard.Props.C08.Obj
 #print axioms Midgard.Props.C08.Obj.only_known_bypasses
 #print axioms Midgard.Props.C08.Obj.setItem_clears_own
 #print axioms Midgard.Props.C08.Obj.chain_view_keeps_invariant
+#print axioms Midgard.Props.C08.PosVel.posvel_caching_invisible_from
+#print axioms Midgard.Props.C08.PosVel.posvel_caching_invisible
